@@ -65,7 +65,7 @@ func genC09(rt *rapid.T) C09Case {
 	}
 	c.Pad = rapid.SampledFrom([]int{0, 0, 40, 300}).Draw(rt, "pad")
 	c.HistoryN = rapid.SampledFrom([]int{0, 1, 2, 3, 5, 5, 12, 30, 100, 130}).Draw(rt, "histn") // past the view default (10) and the maximum (100)
-	kind := rapid.SampledFrom([]string{"save", "save", "savepipe", "resave", "search", "search", "clear"}).Draw(rt, "kind")
+	kind := rapid.SampledFrom([]string{"save", "save", "savepipe", "resavepipe", "resave", "search", "search", "clear"}).Draw(rt, "kind")
 	c.Target = C08Step{Kind: kind}
 	c.Target.Command = quoteS(rapid.SampledFrom(tools).Draw(rt, "tool") + " " + genWord(rt, "w1") + " " + rapid.SampledFrom([]string{"-x", "| sort", "{{.Names}}", "# c", "x"}).Draw(rt, "tail"))
 	c.Target.Desc = quoteS(genWord(rt, "d1") + " " + genWord(rt, "d2") + rapid.SampledFrom([]string{"", ": yes", "\nline2"}).Draw(rt, "dtail"))
@@ -91,6 +91,18 @@ func quoteS(s string) string { return fmt.Sprintf("%q", s) }
 
 // preState builds the disk before the target step.
 func (c *C09Case) preState() *pworld {
+	w := c.preState0()
+	if c.Target.Kind == "resavepipe" {
+		first := []string{"save-pipeline", "--", unq(c.Target.Name), unq(c.Target.Command)}
+		if _, err := w.run(argsOf(first...), nil, nil, "pre"); err != nil {
+			panic("harness: pre-state save-pipeline: " + err.Error())
+		}
+		w.clockNS += int64(time.Hour)
+	}
+	return w
+}
+
+func (c *C09Case) preState0() *pworld {
 	w := newPWorld()
 	w.sched = c.Sched
 	if c.TmpMount {
@@ -135,7 +147,12 @@ func (c *C09Case) targetArgs(w *pworld) []string {
 		return []string{"search", "--all-platforms", "-d", pMainDB, genSearchWords(c)}
 	case "clear":
 		return []string{"history", "--clear"}
-	case "savepipe":
+	case "savepipe", "resavepipe":
+		// resavepipe: the pre-state already holds a pipeline saved under this name (by a real, healthy save-pipeline
+		// in preState); the target saves another command under the same name
+		if t.Kind == "resavepipe" {
+			cmd += " | sort -u"
+		}
 		args := []string{"save-pipeline"}
 		for _, k := range unqAll(t.Keywords) {
 			args = append(args, "-k", k)
